@@ -34,6 +34,10 @@ MUST_FAIL = ["{% unknown_tag %}", "{{ x | no_such_filter }}", "{{ x | upcase: 1 
              "{% include %}", "{% render %}", "{% if x == %}{% endif %}", "{% if == 1 %}{% endif %}", "{% if x and %}{% endif %}", "{% unless %}{% endunless %}", "{% if x %}{% else %}{% else x %}{% endif %}", "{% endraw %}", "{% endcomment %}",
              "{% for x in y limit %}{% endfor %}", "{% for x in y limit: %}{% endfor %}", "{% tablerow x in y cols %}{% endtablerow %}", "{% if x %}{% endif x %}", "{% raw x %}{% endraw %}", "{% comment %}{% if x %}", "{% comment %}{% raw %}{% endcomment %}",
              "{% assign z = \"\n{{ 'a\" %}{{ b' }}", "{{ x | }}", "{{ | upcase }}", "{{ x || upcase }}", "{{ x.y. }}", "{{ x[ }}", "{{ x[] }}", "{{ x..y }}", "{{ (1..3) }}", "{{ 1.. }}", "{% ifchanged %}", "{% break x %}", "{% continue 1 %}"]
+ERR_SCHEMAS = ['{{ x | upcase: "P" }}', '{{ x | truncate: 5, "...", "P" }}', '{% assign y = x | downcase: "P" %}', '{{ x | nofilter: "P" }}', '{% unknown "P" %}', '{% if "P" %}', '{{ "P" | plus }}',
+               '{% assign P = 1 %}', '{{ "P }}', '{% for i in "P" %}', '{% cycle "P": 1, %}', '{% case "P" %}{% bogus %}{% endcase %}', 'P{% endif %}', '{% render "P" with %}', '{{ x | date: "P", "P" }}',
+               '{% if x === "P" %}{% endif %}', '{% tablerow i in "P" cols: %}', '{% include "P" "P" %}', "{{ x | append: 'P', 'P' }}", '{% P %}', '{{ x.P }}', '{{ x["P" }}', '{% capture "P" %}{% endcapture %}',
+               '{% comment %}P', '{% raw %}P', '{% if "P" contains %}{% endif %}', '{% increment "P" %}', '{% for i in (1.."P") %}{% endfor %}', '{% assign y = "P" | %}', '{% liquid P %}']
 MUST_PARSE = ["", "plain", "}}", "%}", "{ {", "{{ x }}", "{{ x | upcase }}", "{% if x %}{% endif %}", "{% case x %}{% else %}{% endcase %}", "{% case x %}{% endcase %}", "{% comment %}{{ bad {% endcomment %}", "{% raw %}{{ {% endraw %}",
               "{% comment %}{% if x %}{{ bad {% endif %}{% endcomment %}", "{% comment %}{% unknown %}{% endcomment %}", "{{ 9223372036854775807 }}", "{{ -9223372036854775808 }}", "{%\tif x\t%}{%\tendif\t%}", "{{ x['a'][0].b }}",
               "{% for i in (1..3) reversed limit:1 offset:1 %}{% else %}{% endfor %}", "{% tablerow i in x cols:2 %}{% endtablerow %}", "{% cycle 'a': 1, 2 %}", "{% ifchanged %}{% endifchanged %}", "{% break %}", "{% continue %}"]
@@ -222,6 +226,11 @@ def gen(tier, seed):
                                         ['" %}', "' %}", '" }}', "' }}"], ["{{ b' }}", '{{ b" }}', "{{ b' | upcase }}", "{% if b' %}", "{{ 'c", "{% b' %}{{ 'x' }}", "{{ b }"]):
         add(a + "\n" + b + c + d, "invalid token after a multi-line element")
         add("t\n" + b + c + d, "invalid token after a multi-line element")
+    # every rejection path with a long non-ASCII payload at every byte alignment: whatever a message quotes or shortens must stay on a character boundary
+    for schema in ERR_SCHEMAS:
+        for ch in ("é", "日", "\U0001F600"):
+            for k in (range(0, 70) if tier == "thorough" else list(range(0, 9)) + list(range(12, 70, 1 if ch == "é" else 3))):
+                add(schema.replace("P", "a" * k + ch * 12), "rejection with a long non-ASCII payload")
     for t in MUST_FAIL:
         add(t, "must be rejected")
     for t in MUST_PARSE:
@@ -281,9 +290,9 @@ def main(tier, seed):
             if len(samples) < 3 and c["why"] == "random token soup":
                 samples.append({"request": {"text": c["text"], "config": config}, "implementation": r})
     # the grammar model on the same texts
-    heavy = ("exhaustive lexeme sequences (length 3", "exhaustive lexeme sequences (length 4", "exhaustive element sequences", "random nesting of blocks")
+    heavy = ("exhaustive lexeme sequences (length 3", "exhaustive lexeme sequences (length 4", "exhaustive element sequences", "random nesting of blocks", "rejection with a long")
     lex_texts = [c["text"] for c in cases if not c["why"].startswith(heavy)]
-    block_texts_ = [c["text"] for c in cases if c["why"].startswith(heavy[2:])]
+    block_texts_ = [c["text"] for c in cases if c["why"].startswith(heavy[2:4])]
     rnd = random.Random(seed)
     have = set(lex_texts)
     rest = [c["text"] for c in cases if c["text"] not in have and len(c["text"]) < 120]
